@@ -34,7 +34,11 @@ Inductive cexp :=
 Inductive ccond :=
 | KGt (a b : cexp) | KLe (a b : cexp) | KEq (a b : cexp)
 | KCall (fn : string)            (* <prefix>fn(ctx) != 0 *)
-| KCb (cb : string).             (* ctx->cbs.cb(ctx->data) != 0 *)
+| KCb (cb : string)              (* ctx->cbs.cb(ctx->data) != 0 *)
+(* tracing function only (Tracer/CSkelTrace.v) *)
+| KNe (a b : cexp)
+| KNotField (f : string)         (* !ctx->f *)
+| KNotReserve (x : string).      (* !_reserve_er_space(ctx, x) *)
 
 Inductive cstmt :=
 | SIf (c : ccond) (body : list cstmt)
@@ -45,7 +49,15 @@ Inductive cstmt :=
 | SInc (f : string)              (* ctx->f++; *)
 | SCb (cb : string)              (* ctx->cbs.cb(ctx->data); *)
 | SReturnRet                     (* return ret; *)
-| SReturnCond (c : ccond).       (* return <comparison>; *)
+| SReturnCond (c : ccond)        (* return <comparison>; *)
+(* tracing function only (Tracer/CSkelTrace.v) *)
+| SIfCfg (k : string) (body : list cstmt)   (* {% if k %} ... {% endif %} around statements *)
+| SSampleClock                   (* sctx->cur_last_event_ts = ctx->cbs.<clk>_clock_get_value(ctx->data); *)
+| SLocal (x : string) (e : cexp) (* x = e;  (local variable) *)
+| SLocalSize (x : string)        (* x = _er_size_<dst>_<ert>(ctx, ...); *)
+| SSerialize                     (* _serialize_er_<dst>_<ert>(ctx, ...); *)
+| SCallFn (fn : string)          (* _fn(ctx); *)
+| SReturnVoid.                   (* return; *)
 
 Record cfun := mk_cfun { cf_params : list string; cf_body : list cstmt }.
 
@@ -145,6 +157,7 @@ Section Sem.
                 else if String.eqb cb "close_packet" then ONext (close_cb d w) ret else OErr
     | SReturnRet => ORet ret w
     | SReturnCond k => match ev_cond w k with Some (b, w) => ORet (if b then 1 else 0) w | None => OErr end
+    | _ => OErr                    (* statements of the tracing function: Tracer/CSkelTrace.v *)
     end.
 
   (* forward gotos to labels of the function's top level *)
